@@ -582,7 +582,21 @@ class PhaseField(_Simu):
     def __Solve_damage(self) -> _types.FloatArray:
         """Computes the damage field."""
 
-        self._Solver_Solve_problemType(self.ProblemTypes.damage)
+        problemType = self.ProblemTypes.damage
+
+        Fd = self.Get_K_C_M_F(problemType)[3]
+        solverTypes = Models.PhaseField.SolverType
+        if Fd.count_nonzero() == 0 and self.phaseFieldModel.solver in [
+            solverTypes.History,
+            solverTypes.HistoryDamage,
+        ]:
+            # No driving force: Kd d = 0 -> d = 0.
+            # With AT1 and psi+ = 0 everywhere (first step, zero load, pure compression) the reaction
+            # term vanishes too, Kd is the singular pure-Neumann diffusion matrix and a direct
+            # solver returns NaN.
+            self._Set_solutions(problemType, np.zeros(self.mesh.Nn))
+        else:
+            self._Solver_Solve_problemType(problemType)
 
         return self.damage
 
